@@ -30,6 +30,7 @@ type lh struct {
 	w      *sim.World
 	net    *sim.Net
 	h      *sim.Host
+	bus    *sim.CountingBus
 	d      *IpfsDHT
 	ctx    context.Context
 	cancel context.CancelFunc
@@ -56,24 +57,52 @@ type lhParams struct {
 	modeSet        bool // mode is meaningful even when it is the zero value (ModeAuto)
 	opts           []Option
 	hostOpts       func(h host.Host) []Option // options that need the host
+	autoRefresh    bool                       // leave the routing-table refresh manager enabled
+	countBus       bool                       // wrap the event bus in a sim.CountingBus (l.bus)
+	subscribeFail  int                        // with countBus: the n-th Subscribe fails
 }
 
 var lhSelf = kid.Peer("0110", 0)
+
+var lhRefreshKeys = map[uint]string{}
+
+// lhRefreshKey is the deterministic stand-in for RoutingTable.GenRandPeerID: a fixed peer id
+// sharing exactly cpl leading bits with the local node.
+func lhRefreshKey(cpl uint) (string, error) {
+	if k, ok := lhRefreshKeys[cpl]; ok {
+		return k, nil
+	}
+	if cpl > 12 {
+		cpl = 12
+	}
+	b := []byte(kid.BitsOf([]byte(lhSelf), int(cpl)+1))
+	b[cpl] = '0' + ('1' - b[cpl])
+	k := string(kid.Peer(string(b), 40))
+	lhRefreshKeys[cpl] = k
+	return k, nil
+}
 
 func newLH(x *vmc.X, w *sim.World, p lhParams) (*lh, error) {
 	l := &lh{x: x, w: w, net: sim.NewNet(w)}
 	l.h = sim.NewHost(w.Self)
 	l.h.DialFn = l.net.Dial
+	if p.countBus {
+		l.bus = &sim.CountingBus{Bus: l.h.EventBus(), FailAt: p.subscribeFail}
+		l.h.SetEventBus(l.bus)
+	}
 	mode := p.mode
 	if mode == 0 && !p.modeSet {
 		mode = ModeClient
 	}
 	opts := []Option{
-		ProtocolPrefix("/sim"), BucketSize(p.k), Concurrency(p.alpha), Resiliency(p.beta), DisableAutoRefresh(), Mode(mode),
+		ProtocolPrefix("/sim"), BucketSize(p.k), Concurrency(p.alpha), Resiliency(p.beta), Mode(mode),
 		Validator(sim.Validator()),
 		WithCustomMessageSender(func(h host.Host, protos []protocol.ID) pb.MessageSenderWithDisconnect {
 			return l.net.Sender(string(protos[0]))
 		}),
+	}
+	if !p.autoRefresh {
+		opts = append(opts, DisableAutoRefresh())
 	}
 	opts = append(opts, p.opts...)
 	if p.hostOpts != nil {
@@ -86,6 +115,7 @@ func newLH(x *vmc.X, w *sim.World, p lhParams) (*lh, error) {
 	}
 	l.d = d
 	d.shuffle = func(int, func(int, int)) {}
+	d.rtRefreshManager.VmcSetKeyGen(lhRefreshKey)
 	ctx, cancel := context.WithCancel(context.Background())
 	l.ctx, l.evCh = RegisterForLookupEvents(ctx)
 	l.cancel = cancel
